@@ -28,7 +28,11 @@ func extractC04(c *Ctx) error {
 		if !ok1 || !ok2 {
 			continue
 		}
-		if !strings.Contains(c.Src(lm.Fun), "runningSum.Mul") || !strings.Contains(c.Src(rm.Fun), "totalPower.Mul") {
+		// exact shape: <recv>.runningSum.Mul(NewInt(a)).GTE(<recv>.totalPower.Mul(NewInt(b))), nothing added or subtracted
+		if !strings.HasSuffix(c.Src(lm.Fun), ".runningSum.Mul") || !strings.HasSuffix(c.Src(rm.Fun), ".totalPower.Mul") {
+			continue
+		}
+		if len(lm.Args) != 1 || len(rm.Args) != 1 {
 			continue
 		}
 		ai := Calls(lm, "NewInt")
